@@ -316,6 +316,8 @@ func stateTerm(st *workflow.State) string {
 
 // ---------------------------------------------------------------- the child: one store
 
+var bigShapes bool
+
 func child(index int, resPath string) {
 	ctx := context.Background()
 	r := core.NewRand(core.Seed()).Fork(uint64(index))
@@ -346,6 +348,9 @@ func child(index int, resPath string) {
 	}
 	run4 := func(seed *core.Rand, budget int, start bool) (uuid.UUID, int, string, int) {
 		o := plangen.Opts{MaxBlocks: 2, MaxSeqs: 2, MaxActions: 2, MaxCheckActions: 2, GroupP: 0.3}
+		if bigShapes && index%2 == 1 {
+			o = plangen.Opts{MaxBlocks: 3, MaxSeqs: 3, MaxActions: 3, MaxCheckActions: 2, GroupP: 0.45}
+		}
 		g := plangen.New(seed, o)
 		p := g.Plan()
 		for _, k := range []*workflow.Checks{p.BypassChecks, p.PreChecks, p.ContChecks, p.PostChecks, p.DeferredChecks} {
@@ -715,6 +720,7 @@ func main() {
 	resPath := flag.String("res", "", "(internal) result file of the child")
 	workers := flag.Int("workers", 6, "children run in parallel")
 	only := flag.Int("only", -1, "run only this store index (replay)")
+	flag.BoolVar(&bigShapes, "big", false, "every second store uses larger plan shapes (thorough tier)")
 	flag.Parse()
 
 	if *childIx >= 0 {
@@ -763,7 +769,11 @@ func runChild(self, tmp string, i int) core.Case {
 	var last core.Case
 	for attempt := 0; attempt < 4; attempt++ {
 		res := fmt.Sprintf("%s/res-%d-%d.json", tmp, i, attempt)
-		cmd := exec.Command(self, "-child", fmt.Sprint(i), "-res", res)
+		args := []string{"-child", fmt.Sprint(i), "-res", res}
+		if bigShapes {
+			args = append(args, "-big")
+		}
+		cmd := exec.Command(self, args...)
 		cmd.Env = os.Environ()
 		var errb strings.Builder
 		cmd.Stdout = &errb
